@@ -112,12 +112,15 @@ def check_int_ctor(repo: Repo, run: Run, cname: str) -> int:
     decos = range_decorators(repo)
     want = EXPECTED_RANGE[cname]
     good_decos = {n for n, (ivs, _, _) in decos.items() if ivs is not None and [(int(a), int(b)) for a, b in ivs if a not in (INF, -INF) and b not in (INF, -INF)] == want}
+    from .c01 import range_checkers
+
+    good_checkers = {n for n, ivs in range_checkers(repo).items() if ivs is not None and [(int(a), int(b)) for a, b in ivs if a not in (INF, -INF) and b not in (INF, -INF)] == want}
     src_param = fn.args.args[1].arg if len(fn.args.args) > 1 else "source"
     lo, hi = want[0]
     n = 0
     seen_labels: Dict[str, int] = {}
     try:
-        all_paths = paths_of(ct, cls, fn, no_inline=set(decos))
+        all_paths = paths_of(ct, cls, fn, no_inline=set(decos) | set(good_checkers))
     except OverflowError:
         run.inconclusive("C10.R1", f"{cname}.__new__", "too many paths")
         return 0
@@ -151,6 +154,30 @@ def check_int_ctor(repo: Repo, run: Run, cname: str) -> int:
             continue
         inner = None
         checked = False
+        if isinstance(built, ast.Call) and isinstance(built.func, ast.Name) and built.func.id in good_checkers and len(built.args) == 1:
+            # the value goes through a plain range checker: checker(converted value)
+            run.ob("C10.R1", label, True, f"{label}: `{ast.unparse(built)[:70]}` is range-checked by {built.func.id}()", site)
+            conv = strip_cast(built.args[0])
+            if pos & {"float", "DoubleType"}:
+                callee = dotted(conv.func) if isinstance(conv, ast.Call) else None
+                run.ob("C10.R3", f"{cname}.__new__[double]", callee in TRUNCATING,
+                       f"{cname}(double) converts with `{ast.unparse(conv)[:40]}`; CEL truncates toward zero (trunc / int)", site)
+            if prefixes:
+                neg = all(x.startswith("-") for x in prefixes)
+                klen = {len(x) for x in prefixes}
+                ints = [c for c in ast.walk(conv) if isinstance(c, ast.Call) and dotted(c.func) == "int" and len(c.args) == 2]
+                ok = False
+                if len(ints) == 1 and len(klen) == 1:
+                    a0, a1 = strip_cast(ints[0].args[0]), ints[0].args[1]
+                    radix = try_const(ct, a1, cls, fn)
+                    start = None
+                    if isinstance(a0, ast.Subscript) and isinstance(a0.slice, ast.Slice) and a0.slice.upper is None and ast.unparse(a0.value) == src_param:
+                        start = try_const(ct, a0.slice.lower, cls, fn) if a0.slice.lower is not None else 0
+                    negs = sum(1 for u in ast.walk(conv) if isinstance(u, ast.UnaryOp) and isinstance(u.op, ast.USub))
+                    ok = radix == 16 and start == list(klen)[0] and negs == (1 if neg else 0)
+                run.ob("C10.R3", f"{cname}.__new__[hex{'-' if neg else ''}]", ok,
+                       f"{cname}({'-' if neg else ''}0x..) parses `{ast.unparse(conv)[:60]}`: must skip {list(klen)[0] if len(klen) == 1 else '?'} characters, radix 16" + (", negated" if neg else ""), site)
+            continue
         if isinstance(built, ast.Call):
             f = strip_cast(built.func)
             if isinstance(f, ast.Call) and (dotted(f.func) or "").split(".")[-1] in good_decos:
